@@ -53,8 +53,8 @@ def shards(tier, seed):
                         'bounds': 'length 6 over 23 chars: 2 of 529 prefix blocks chosen by VERIF_SEED (each block exhaustive)'})
         for i, a in enumerate(SIGMA8):
             for j, b in enumerate(SIGMA8):
-                lens = [4, 5] if (i + j + seed) % 2 == 0 else [4]
-                out.append({'sub': 'len7_8', 'alpha': 'S8', 'prefix': a + b, 'lens': lens, 'bounds': 'all strings of length 6 and a VERIF_SEED-chosen half of length 7 over 8 chars (alignment/string/escape characters)'})
+                lens = [4, 5] if (i + j + seed) % 4 == 0 else [4]
+                out.append({'sub': 'len7_8', 'alpha': 'S8', 'prefix': a + b, 'lens': lens, 'bounds': 'all strings of length 6 and a VERIF_SEED-chosen quarter of length 7 over 8 chars (alignment/string/escape characters)'})
     else:
         for a in SIGMA14:
             for b in SIGMA14:
